@@ -272,8 +272,21 @@ def _expr_case(case):
             case.check(False, f"pipeline expression raised {type(e).__name__}: {str(e)[:150]}",
                        _mech(node.text, e), expr=node.text)
             return
-    got = np.asarray(got)
-    want = np.asarray(want)
+    got = np.array(got, copy=True)
+    want = np.array(want, copy=True)
+    # pipelines are pure: a second evaluation gives the same image, and the images held by the leaf providers
+    # (the caller's arrays) are what they were
+    with np.errstate(all="ignore"):
+        try:
+            got2 = np.asarray(obj(scale) if node.kind == "P" else obj(x, scale))
+            want2 = np.asarray(node.evalf(scale) if node.kind == "P" else node.evalf(x, scale))
+            same2 = got2.shape == got.shape and np.array_equal(got2, got, equal_nan=True)
+            leaves_ok = want2.shape == want.shape and np.array_equal(want2, want, equal_nan=True)
+        except Exception:
+            same2 = leaves_ok = True      # failures are reported by the first evaluation
+    case.check(same2, "a second evaluation of the same pipeline expression gives another image", None, expr=node.text)
+    case.check(leaves_ok, "evaluating a pipeline expression modified an image held by one of its providers", None,
+               expr=node.text)
     if not case.check(got.shape == want.shape, "pipeline result has the wrong shape", None, expr=node.text):
         return
     fin = np.isfinite(want) & np.isfinite(got)
@@ -525,6 +538,20 @@ def _law_case(case):
         sm = np.asarray(pipe.gaussian_smooth(r)(obj, scale))
         case.check(bool(np.all(d >= obj)) and d.sum() > obj.sum(), "dilation is not extensive", None)
         case.check(bool(np.all(e <= obj)), "erosion is not anti-extensive", None)
+        # erosion by r is the complement of the dilation of the complement by r (same structuring ball, radius
+        # ceil(r/scale) px; r/scale is not an integer here), and a voxel survives only if the whole ball around it does
+        from scipy import ndimage as _ndi2
+
+        rpx = int(np.ceil(r / scale))
+        zb = np.indices((2 * rpx + 1,) * 3) - rpx
+        ball = (zb ** 2).sum(0) <= rpx ** 2
+        ref_er = _ndi2.binary_erosion(obj, structure=ball, border_value=True)
+        dual = ~np.asarray(pipe.dilation(r)(~obj, scale)).astype(bool)
+        inner = tuple(slice(rpx + 1, -rpx - 1) for _ in range(3))
+        case.check(np.array_equal(e.astype(bool)[inner], dual[inner]),
+                   "erosion(r) is not the complement of dilation(r) of the complement", None, r_px=r / scale)
+        case.check(np.array_equal(e.astype(bool)[inner], ref_er[inner]),
+                   "erosion(r) is not the erosion by a ball of ceil(r/scale) voxels", None, r_px=r / scale, ceil=rpx)
         case.check(bool(np.all(cl >= obj)), "closing is not extensive", None)
         case.check(bool(np.all(op <= obj)), "opening is not anti-extensive", None)
         case.check(bool(np.all(sm >= obj - 1e-6)) and float(sm.min()) >= 0 and float(sm.max()) <= 1 + 1e-6,
